@@ -281,7 +281,7 @@ fn u1_record(r: &mut Rng, names: &[NameM]) -> RecSem {
 }
 
 fn u1(ctx: &mut Ctx) {
-    let nh = if ctx.slow_tool { 25 } else { ctx.tier.pick(20_000u64, 1_500_000u64) };
+    let nh = if ctx.slow_tool { 192 } else { ctx.tier.pick(20_000u64, 1_500_000u64) };
     for idx in 0..nh {
         if !ctx.take("u1", idx) {
             continue;
@@ -359,7 +359,7 @@ fn u1(ctx: &mut Ctx) {
 }
 
 pub fn run(ctx: &mut Ctx) {
-    if ctx.family_active("u0") {
+    if ctx.family_active("u0") && !ctx.slow_tool {
         u0(ctx);
     }
     if ctx.family_active("u1") {
